@@ -58,6 +58,10 @@ class C18(Harness):
             for style in ('list', 'dict'):
                 for level in ('instance', 'class'):
                     out.append({'ptype': ptype, 'style': style, 'level': level})
+                # the same proxy object kept across operations / None among the objects
+                out.append({'ptype': ptype, 'style': style, 'level': 'instance', 'reuse': True})
+                if ptype == 'Selector':
+                    out.append({'ptype': ptype, 'style': style, 'level': 'instance', 'with_none': True})
         return out
 
     def depth(self, tier, config):
@@ -103,6 +107,8 @@ class C18(Harness):
                 if keys:
                     ops.append(['setkey', keys[0], enc(x)])
                     ops.append(['setkey', keys[-1], enc(x)])
+                    if len(keys) > 2:
+                        ops.append(['setkey', keys[1], enc(x)])
                 nk = [k for k in NEWKEYS if k not in model]
                 if nk and len(fresh) > 1 and keys:
                     ops.append(['update', [[keys[0], enc(fresh[0])], [nk[0], enc(fresh[1])]]])
@@ -183,15 +189,18 @@ class C18(Harness):
         from mc.world import reset_globals
         reset_globals()
         ptype = getattr(param, cfg['ptype'])
+        init = [None if (cfg.get('with_none') and x == 'beta') else x for x in INIT]
         if cfg['style'] == 'list':
-            objects = list(INIT)
-            model = list(INIT)
+            objects = list(init)
+            model = list(init)
         else:
-            objects = dict(zip(NAMES0, INIT))
-            model = collections.OrderedDict(zip(NAMES0, INIT))
+            objects = dict(zip(NAMES0, init))
+            model = collections.OrderedDict(zip(NAMES0, init))
         default = [INIT[0]] if cfg['ptype'] == 'ListSelector' else INIT[0]
         cls = type('S18', (param.Parameterized,), {'s': ptype(objects=objects, default=default)})
         inst = cls()
+        sibling = cls()
+        sibling.param.s              # has its own per-instance Parameter too
         log = []
         if cfg['level'] == 'instance':
             pobj = lambda: inst.param.s
@@ -199,12 +208,18 @@ class C18(Harness):
         else:
             pobj = lambda: cls.param.s
             cls.param.watch(lambda *evs: log.append(evs), ['s'], what='objects')
-        return dict(cls=cls, inst=inst, pobj=pobj, log=log), model
+        w = dict(cls=cls, inst=inst, pobj=pobj, log=log, sibling=sibling, proxy=None, init=list(init), init_names=list(zip(NAMES0, init)) if cfg['style'] == 'dict' else [])
+        return w, model
 
     def apply(self, cfg, w, op):
         p = w['pobj']()
         kind = op[0]
-        o = p.objects
+        if cfg.get('reuse'):
+            if w['proxy'] is None or kind == 'replace':
+                w['proxy'] = p.objects
+            o = w['proxy']
+        else:
+            o = p.objects
         if kind == 'append':
             return o.append(dec(op[1]))
         if kind == 'insert':
@@ -237,6 +252,7 @@ class C18(Harness):
                 p.objects = [dec(x) for x in op[1]]
             else:
                 p.objects = {k: dec(v) for k, v in op[1]}
+            w['proxy'] = None
             return None
         raise AssertionError(op)
 
@@ -294,8 +310,14 @@ class C18(Harness):
             bad('view-agrees', 'names', names, obs['names'])
         if obs['range'] != items:
             bad('view-agrees', 'get_range()', items, obs['range'])
+        # an instance-level mutation leaves the other holders of the Selector alone
+        if cfg['level'] == 'instance':
+            for label, holder in (('class', w['cls'].param.s), ('sibling instance', w['sibling'].param.s)):
+                if list(holder.objects) != w['init'] or (cfg['style'] == 'dict' and list(holder.names.items()) != w['init_names']):
+                    vs.append(V('other-holder-changed', '%s (step %d op %s): objects/names of the %s changed to %r / %r' % (
+                        'history', step, opkind, label, list(holder.objects), list(holder.names.items())), op=opkind, style=cfg['style'], holder=label))
         # membership: every pool object is accepted iff it is in the model
-        for v in POOL:
+        for v in POOL + ([None] if cfg.get('with_none') else []):
             acc = self.assign(cfg, w, v)
             exp = v in objs
             if acc == 'readback':
